@@ -346,6 +346,9 @@ class LinkSym:
         n = self.fn.N(x)
         if n.get('v') == 0 and ('*' in (n.get('t') or '') or n['k'] in ('CXXNullPtrLiteralExpr', 'GNUNullExpr', 'IntegerLiteral')):
             return NULL
+        if n.get('c') and (n['k'] in ('ExprWithCleanups', 'ParenExpr', 'MaterializeTemporaryExpr', 'CXXBindTemporaryExpr', 'ConstantExpr')
+                           or (n['k'].endswith('CastExpr') and n.get('ck') in ('NoOp', 'BitCast', 'LValueToRValue'))):
+            return self._term(st, n['c'][0], val)
         return self.opaque('inl')
 
     def _is_seg(self, t, node):
